@@ -348,9 +348,10 @@ def cmd_check(pid, tier, repo, only, keep, jobs):
         shutil.copy(os.path.join(repo, "Cargo.lock"), os.path.join(src, "Cargo.lock"))
         kani_obs = [o for o in obs if o.get("backend", "kani") == "kani"]
         native_obs = [o for o in obs if o.get("backend") == "native"]
+        smt_obs = [o for o in obs if o.get("backend") == "smt"]
         verus_obs = [o for o in obs if o.get("backend") == "verus"]
         # 1. build once per crate
-        for crate in sorted({o["crate"] for o in kani_obs + native_obs}):
+        for crate in sorted({o["crate"] for o in kani_obs + native_obs if o.get("crate")}):
             log("[%s] building %s under Kani ..." % (pid, crate))
             b = run_limited(["cargo", "kani", "-p", crate, "--only-codegen"] + KANI_Z, src, 1800, 0)
             if b["rc"] != 0:
@@ -381,6 +382,10 @@ def cmd_check(pid, tier, repo, only, keep, jobs):
             r = run_native(o, src)
             results.append(r)
             log("[%s] %-44s %-11s %6.1fs  %s" % (pid, o["name"], r["status"], r["res"]["wall"], r["detail"][:150]))
+        for o in smt_obs:
+            r = run_smt(o, src)
+            results.append(r)
+            log("[%s] %-44s %-11s %6.1fs  %s" % (pid, o["name"], r["status"], r["res"]["wall"], r["detail"][:150]))
         # 4. Verus
         if verus_obs:
             verus_results = verus_run.run(repo, src, verus_obs, scratch, log)
@@ -401,14 +406,14 @@ def cmd_check(pid, tier, repo, only, keep, jobs):
                                    "functions": o.get("functions", []), "concrete_playback_test": None,
                                    "verifier_output_tail": r["res"]["out"][-8000:]}, f, indent=1)
                     reproduced = False
-                elif o.get("backend") == "native":
+                elif o.get("backend") in ("native", "smt"):
                     os.makedirs(replay_dir, exist_ok=True)
                     path = os.path.join(replay_dir, "%s.replay" % o["name"])
                     with open(path, "w") as f:
-                        json.dump({"property": pid, "obligation": o["name"], "backend": "native",
+                        json.dump({"property": pid, "obligation": o["name"], "backend": o.get("backend"),
                                    "functions": o.get("functions", []), "concrete_playback_test": None,
                                    "verifier_output_tail": r["res"]["out"][-8000:]}, f, indent=1)
-                    reproduced = True
+                    reproduced = o.get("backend") == "native"
                 else:
                     path, reproduced = make_replay(pid, o, src, hdir, r["res"]["out"], replay_dir)
                 r["replay"] = path
@@ -441,6 +446,23 @@ def cmd_check(pid, tier, repo, only, keep, jobs):
             shutil.rmtree(scratch, ignore_errors=True)
 
 
+def run_smt(o, src):
+    """Self-generated verification conditions over constants extracted from the source, discharged by z3."""
+    cmd = [x.replace("{src}", src) for x in o["cmd"]]
+    res = run_limited(cmd, VERIF, o.get("timeout", 900), 8 * 2**30)
+    out = res["out"] or ""
+    m = re.search(r"MAGIC-VC (\d+) of (\d+) unsat in ([\d.]+)s", out)
+    res["parsed"] = {"n_checks": int(m.group(2)) if m else None, "time": float(m.group(3)) if m else None}
+    if res["killed"]:
+        return {"ob": o, "status": "undecided", "detail": res["killed"], "res": res}
+    if res["rc"] == 0 and m and m.group(1) == m.group(2) and int(m.group(2)) > 0:
+        return {"ob": o, "status": "discharged", "detail": "z3: %s of %s queries unsat" % (m.group(1), m.group(2)), "res": res}
+    if res["rc"] == 1:
+        return {"ob": o, "status": "violation", "detail": "z3 found a model: " + " | ".join(
+            l for l in out.split("\n") if "SAT" in l or "SIDE-CONDITION" in l)[:400], "res": res}
+    return {"ob": o, "status": "undecided", "detail": "no verdict: " + out[-400:], "res": res}
+
+
 def run_native(o, src):
     """Bounded stand-in executed natively: cargo kani playback of a #[test] in the harness module."""
     res = run_limited(["cargo", "kani", "playback", "-Z", "concrete-playback", "-p", o["crate"], "--",
@@ -460,7 +482,7 @@ def run_native(o, src):
 
 def write_evidence(pid, P, tier, seed, obs, results, violations, undecided, known_hits, wall, added, sha, repo,
                    path):
-    proved_kinds = ("contract", "proof", "verus")
+    proved_kinds = ("contract", "proof", "verus", "smt")
     res_by = {r["ob"]["name"]: r for r in results}
     samples = []
     n_ob = n_dis = 0
@@ -474,7 +496,8 @@ def write_evidence(pid, P, tier, seed, obs, results, violations, undecided, know
             "obligation": o["name"],
             "kind": o["kind"],
             "backend": {"kani": "Kani 0.68 / CBMC 6.11 (CaDiCaL)", "verus": "Verus 0.2026.09.13 / Z3",
-                        "native": "native execution (bounded stand-in)"}[o.get("backend", "kani")],
+                        "native": "native execution (bounded stand-in)",
+                        "smt": "z3 (z3-solver wheel) on verification conditions generated from the extracted constants"}[o.get("backend", "kani")],
             "status": st,
             "checks": k.get("n_checks"),
             "verifier_time_s": k.get("time") if k.get("time") is not None else (r["res"].get("wall") if r else None),
